@@ -126,10 +126,13 @@ def run_property(pid, prog, config, tier):
 def second_opinion(pid, mod, prog, rep, tier, config):
     """A rule is violated only if it is violated on the program as written AND on the same program with helper functions
     spliced into their callers (mir.Program.inlined). Both are the same program; the second view lets intra-procedural rules
-    keep seeing one body after a block has been extracted into a helper (or an anchor function has been split).  Per rule:
-    violations of the plain view stand unless the inlined view ran that rule without any violation; rules that did not run
-    on the plain view (an anchor was lost first) take their verdict from the inlined view; a lost anchor is forgiven when the
-    inlined view does not lose the same anchor."""
+    keep seeing one body after a block has been extracted into a helper (or an anchor function has been split).  The second view
+    only adds visibility (spliced calls stay listed, closures of spliced callees are reachable).  A violation of the
+    plain view stands unless the second view discharges the obligation with the same key (and reports no other violation of
+    that rule in that function); a lost anchor of a rule stands unless the second view has obligations of that rule and none is
+    violated;
+    rules that did not run on the plain view take their verdict from the second view; if the second view loses a function-level
+    anchor the plain view had, nothing is discharged."""
     try:
         progb = prog.inlined()
         repb = Report(pid)
@@ -143,21 +146,38 @@ def second_opinion(pid, mod, prog, rep, tier, config):
     ran_b = {}
     for o in repb.obs:
         ran_b.setdefault(o.rule, []).append(o)
+    keys_a_viol = {o.key for o in rep.obs if o.status == VIOLATION}
     keys_b_viol = {o.key for o in repb.obs if o.status == VIOLATION}
+    # the second view must have got at least as far as the first: an anchor it loses that the first view found makes it unusable
+    b_degraded = any(o.rule == 'anchor' and o.status == VIOLATION and o.key not in keys_a_viol for o in repb.obs)
     out = []
     resolved = []
     for o in rep.obs:
         if o.status != VIOLATION:
             out.append(o)
             continue
-        if o.rule == 'anchor' or 'anchor-lost' in o.key:
-            if o.key in keys_b_viol:
+        if b_degraded:
+            out.append(o)
+            continue
+        if o.rule == 'anchor':
+            # a function-level anchor: found on the second view, which then ran the rules behind it
+            if o.key in keys_b_viol or any(x.rule == 'anchor' and x.status == VIOLATION for x in repb.obs):
                 out.append(o)
             else:
                 resolved.append(o)
             continue
-        b = ran_b.get(o.rule)
-        if b and not any(x.status == VIOLATION for x in b):
+        b = ran_b.get(o.rule) or []
+        if 'anchor-lost' in o.key:
+            # the rule found nothing to judge on the plain view: the second view found its sites and none of them is violated
+            if b and not any(x.status == VIOLATION for x in b):
+                resolved.append(o)
+            else:
+                out.append(o)
+            continue
+        # an ordinary violation: the same obligation (same key) is discharged on the second view, and the second view reports
+        # no other violation of that rule in that function (site ordinals may shift between the views)
+        same = [x for x in b if x.key == o.key]
+        if same and all(x.status != VIOLATION for x in same) and not any(x.status == VIOLATION and x.fn == o.fn for x in b):
             resolved.append(o)
         else:
             out.append(o)
